@@ -8,7 +8,8 @@ import OV.Model.C07Graph
     `_apply_to_graph_or_function`              → `passLoop` (iteration over the *mutating* node list,
                                                   first applicable rule, recursion into the graph
                                                   attributes of the node that was just visited)
-    initializer registration (≈703-719)        → `registerInits` (clash: printed, then overwritten)
+    initializer registration (≈703-722)        → `registerInits` (clash: the new value is renamed `name_k`; fix 340a24c)
+                                                 `registerInitsPrefix` = the code before the fix (overwrite)
     `as_function` branch, `_copy_for_function`,
     `_get_new_overload`                        → `asFunction`, `newOverload`
     rule-name tag + `MetadataMerger`           → `tagAndMerge`
@@ -256,8 +257,12 @@ def usedOf (ns : List TNode) : List (String × Option Nat) :=
   ns.foldl (fun acc n => if acc.contains (n.domain, n.version) then acc else acc ++ [(n.domain, n.version)]) []
 
 /-- `ReplacementPatternFunction.get_replacement`: new nodes get ids `base, base+1, …`. -/
-def instantiate (r : Repl) (m : Match) (base call : Nat) : Delta :=
-  let inits := r.inits.map fun (n, t) => (if r.uniqueInits then s!"{n}_{call}" else n, t)
+def nominalInits (r : Repl) (call : Nat) : List (Name × String) :=
+  r.inits.map fun (n, t) => (if r.uniqueInits then s!"{n}_{call}" else n, t)
+
+/-- `inits`: the initializer values the function created, under the names they end up with (a
+value renamed at registration is the same object the tape nodes read). -/
+def instantiate (r : Repl) (m : Match) (base : Nat) (inits : List (Name × String)) : Delta :=
   let nodes := (List.range r.nodes.length).zip r.nodes |>.map fun (i, tn) =>
     Node.mk (base + i) tn.op tn.domain "" (tn.inputs.map (tref m base inits))
       ((List.range tn.nOut).map (freshName (base + i))) tn.attrs [] [] []
@@ -293,23 +298,44 @@ def redirectUses (a b : Name) (d : Nat) (g : Graph) : Graph :=
         (n.caps.map (renName a b)) (n.subs.map fun s => (s.1, renGraph a b d s.2)))
     (g.outputs.map (renName a b))
 
-/-! ## Initializer registration (`_rewrite_rule.py` ≈703-719)
+/-! ## Initializer registration (`_rewrite_rule.py` ≈703-722, after fix 340a24c)
 
-The first loop only prints on a clash; the second loop assigns unconditionally.  Assigning to an
+One loop: a new initializer whose name is already a key of `graph.initializers` is renamed to the
+first free `name_k` (k = 1, 2, …) and then registered; nothing registered is ever replaced.
+The search is rendered over `k ≤ |initializers| + 1` (`none` only if none of these is free). -/
+
+def freshInitName (taken : List Name) (x : Name) : Option Name :=
+  if !(taken.contains x) then some x
+  else ((List.range (taken.length + 1)).map fun k => x ++ "_" ++ toString (k + 1)).find? fun y => !(taken.contains y)
+
+/-- Returns the graph and the initializers under their final names. -/
+def registerInits (g : Graph) : List (Name × String) → Option (Graph × List (Name × String))
+  | [] => some (g, [])
+  | (x, t) :: rest =>
+    match freshInitName g.initNames x with
+    | none => none
+    | some y =>
+      match registerInits (g.setInits (g.inits ++ [(y, t)])) rest with
+      | none => none
+      | some (g', r) => some (g', (y, t) :: r)
+
+/-! ### the code before the fix (kept for the refutation `registerInits_prefix_refuted`)
+
+The first loop only printed on a clash; the second loop assigned unconditionally.  Assigning to an
 existing key replaces the registered `ir.Value` object: the users of the old object keep pointing
-at a value that is no longer an initializer (dangling).  Name-based rendering: the old users are
-redirected to the dangling name `†<name>`. -/
+at a value that is no longer an initializer.  Name-based rendering: the old users are redirected
+to the dangling name `†<name>`. -/
 
 def dangling (x : Name) : Name := "†" ++ x
 
-def registerInit (d : Nat) (g : Graph) (x : Name) (tok : String) : Graph :=
+def registerInitPrefix (d : Nat) (g : Graph) (x : Name) (tok : String) : Graph :=
   if g.initNames.contains x then
     let g := redirectUses x (dangling x) d g
     g.setInits (g.inits.map fun (y, t) => if y == x then (y, tok) else (y, t))
   else g.setInits (g.inits ++ [(x, tok)])
 
-def registerInits (d : Nat) (g : Graph) (is : List (Name × String)) : Graph :=
-  is.foldl (fun g (x, t) => registerInit d g x t) g
+def registerInitsPrefix (d : Nat) (g : Graph) (is : List (Name × String)) : Graph :=
+  is.foldl (fun g (x, t) => registerInitPrefix d g x t) g
 
 /-! ## Metadata (rule-name tag, `MetadataMerger.copy_merged_metadata`) -/
 
@@ -389,7 +415,15 @@ def newOverload (funcs : List Func) (domain name : String) : Nat → Nat → Str
     if funcs.any (fun fn => fn.domain == domain && fn.name == name && fn.overload == toString k)
     then newOverload funcs domain name f (k + 1) else toString k
 
-/-- Result: the call node with its overload set, and the new function; `none` = the code raises. -/
+/-- `{**model.graph.opset_imports, **graph_or_function.opset_imports}` (fix 35ad500): the model's
+imports, overridden by the container's own, then the container-only domains. -/
+def mergeOpsets (main lo : List (String × Nat)) : List (String × Nat) :=
+  main.map (fun kv => (kv.1, (lo.lookup kv.1).getD kv.2)) ++
+    lo.filter (fun kv => !(main.any (fun mv => mv.1 == kv.1)))
+
+/-- Result: the call node with its overload set, and the new function; `none` = the code raises.
+`parentOpsets`: the imports the function's own are filtered from — `mergeOpsets model container`
+since 35ad500, the container's alone before. -/
 def asFunction (g : Graph) (parentOpsets : List (String × Nat)) (funcs : List Func) (m : Match)
     (newNodes : List Node) : Option (Node × Func) :=
   match newNodes with
@@ -409,6 +443,29 @@ def asFunction (g : Graph) (parentOpsets : List (String × Nat)) (funcs : List F
         { domain := call.domain, name := call.op, overload := ov,
           opsets := parentOpsets.filter (fun kv => used.contains kv.1), body := body })
   | _ => none
+
+def BIG : Nat := 100000
+
+mutual
+def bodyReadsNodes : Nat → List Node → List Name
+  | 0, _ => []
+  | d + 1, ns => ns.flatMap fun n => n.inputNames ++ n.subs.flatMap fun s => bodyReadsGraph d s.2
+def bodyReadsGraph : Nat → Graph → List Name
+  | 0, _ => []
+  | d + 1, g => bodyReadsNodes d g.nodes
+end
+
+/-- The new initializer values are new objects; their *names* may coincide with a name the graph
+already reads from an enclosing scope (a body has its own, initially empty, `initializers`, so the
+clash test does not see the outer `one`).  Objects do not capture: the old readers keep reading the
+outer value and `NameFixPass` later renames the newcomer.  Name-based rendering: such a newcomer
+is given a private name right away. -/
+def avoidCapture (call : Nat) (g0 : Graph) (reg : Graph × List (Name × String)) : Graph × List (Name × String) :=
+  let seen := bodyReadsGraph BIG g0 ++ g0.outputs ++ g0.defined
+  let ren (x : Name) : Name := if seen.contains x then x ++ "#" ++ toString call else x
+  let fin := reg.2.map fun (x, t) => (ren x, t)
+  let keep := reg.1.inits.take (reg.1.inits.length - reg.2.length)
+  (reg.1.setInits (keep ++ fin), fin)
 
 /-- `graph.remove(old_nodes, safe=True)` raises when a value of a removed node still has a user
 outside the removed set: a replacement node reading an *interior* matched value (a pattern
@@ -430,7 +487,6 @@ inductive Step where
   | skipped (st : PassSt) (lo : List (String × Nat))         -- function + new initializers: `continue`
   | applied (st : PassSt) (lo : List (String × Nat)) (g : Graph) (firstNew : Nat)
 
-def BIG : Nat := 100000
 
 def tryRule (kind : Kind) (r : Rule) (st : PassSt) (lo : List (String × Nat)) (g : Graph) (node : Node) :
     Except Err Step :=
@@ -438,7 +494,13 @@ def tryRule (kind : Kind) (r : Rule) (st : PassSt) (lo : List (String × Nat)) (
   | none => .ok (.noMatch st lo)
   | some m =>
     let st := { st with calls := st.calls + 1 }
-    let δ := instantiate r.repl m st.nextId st.calls
+    let nominal := nominalInits r.repl st.calls
+    -- functions take no initializers (the rule is skipped below); otherwise the values are registered,
+    -- renamed on a clash; the registered graph is used only once the opset updates went through
+    match (if kind == .func then some (g, nominal) else (registerInits g nominal).map (avoidCapture st.calls g)) with
+    | none => .error (.unmodelled "no free initializer name")
+    | some (gReg, finalInits) =>
+    let δ := instantiate r.repl m st.nextId finalInits
     let st := { st with nextId := st.nextId + δ.newNodes.length }
     if δ.newOutputs.length != r.pat.outputs.length then .error .outputArity
     else
@@ -458,10 +520,10 @@ def tryRule (kind : Kind) (r : Rule) (st : PassSt) (lo : List (String × Nat)) (
             .ok (.skipped { st with ghost := st.ghost ++
               (δ.newNodes.flatMap (·.inputNames)).filter (fun x => !((δ.newInits.map (·.1)).contains x)) } lo1)
           else
-            let g := registerInits BIG g δ.newInits
+            let g := gReg
             let res : Except Err (PassSt × List Node) :=
               if r.asFunction then
-                match asFunction g lo1 st.funcs m δ.newNodes with
+                match asFunction g (mergeOpsets st.mainOpsets lo1) st.funcs m δ.newNodes with
                 | none => .error .asFunction
                 | some (call, fn) => .ok ({ st with funcs := st.funcs ++ [fn] }, [call])
               else .ok (st, δ.newNodes)
@@ -560,15 +622,6 @@ def applyRules (rules : List Rule) (fuel : Nat) : Nat → Kind → PassSt → Li
 Reverse sweep; a node goes when none of its outputs is a graph output or has a use.  Removing a
 node detaches *its* inputs, but the nodes inside the bodies of a removed `If`/`Loop` keep their
 uses: values they read stay "used" (`ghost` names) for the rest of this pass and for later passes. -/
-
-mutual
-def bodyReadsNodes : Nat → List Node → List Name
-  | 0, _ => []
-  | d + 1, ns => ns.flatMap fun n => n.inputNames ++ n.subs.flatMap fun s => bodyReadsGraph d s.2
-def bodyReadsGraph : Nat → Graph → List Name
-  | 0, _ => []
-  | d + 1, g => bodyReadsNodes d g.nodes
-end
 
 /-- uses that survive the removal of `n` -/
 def ghostOf (n : Node) : List Name := n.subs.flatMap fun s => bodyReadsGraph BIG s.2
